@@ -1,7 +1,7 @@
 (* Props/C12.v — property C12: a glob set answers like its member globs; globs mean what is documented.
    Only statements; every proof is one `exact`.  The Check lines pin the statements. *)
-From RG Require Import Base.Bytes Model.Glob Model.GlobSet Spec.GlobSem Spec.GlobSetSem
-  Proofs.GlobStrategyProofs Proofs.GlobSetProofs Proofs.GlobParseProofs.
+From RG Require Import Base.Bytes Model.Glob Model.GlobSet Spec.GlobSem Spec.GlobSetSem Spec.GlobSyntax
+  Proofs.GlobStrategyProofs Proofs.GlobSetProofs Proofs.GlobSetIsMatchProofs Proofs.GlobParseProofs Proofs.GlobRenderProofs.
 
 (* 1. every match strategy answers as the glob's regex: for all token lists (parser-produced or not),
       all four options, all paths (arbitrary bytes), the strategy MatchStrategy::new selects, evaluated
@@ -44,12 +44,43 @@ Theorem set_eq_members :
 Proof. exact set_eq_members_proof. Qed.
 Print Assumptions set_eq_members.
 
+(* 3b. GlobSet::is_match (the strategies' own is_match functions: hash look-ups, Aho-Corasick scans with the
+       start/end test, per-extension regex lists, the regex set) is true exactly when some member glob matches. *)
+Theorem set_is_match_eq_exists :
+  forall (gs : list glob) (p : bytes),
+    set_is_match re_spec gs p = existsb (fun g => tmatch (g_opts g) (g_tokens g) p) gs.
+Proof. exact set_is_match_eq_exists_proof. Qed.
+Print Assumptions set_is_match_eq_exists.
+
 (* 4. the parser is total and never reaches one of its unwrap()/assert! panics: for every option set and
       every glob text it returns tokens or one of the six error kinds within the fuel S (length glob). *)
 Theorem parse_total_never_panics :
   forall (o : gopts) (g : list N), exists r, build o g = Some r /\ r <> Err Panic.
 Proof. exact build_total. Qed.
 Print Assumptions parse_total_never_panics.
+
+(* 5. the parser reads the documented syntax as documented: for every glob of the documented (alternate-free)
+      syntax — a '/'-separated list of pieces, each a component of literal characters (plain or backslash-
+      escaped), `?`, `*` and bracket classes (characters and ranges), or `**` (whole component, never twice in a
+      row) — the parser applied to its text yields exactly the documented tokens: `**/` in front = RecursivePrefix,
+      `/**` at the end = RecursiveSuffix, `/**/` = RecursiveZeroOrMore, the glob `**` = everything, `*` `?`
+      classes and literals one token each (backslash_escape on; any case / separator options).  Together with
+      tmatch (the construct-by-construct meaning of those tokens) and, for literal_separator, the component-level
+      reading proved in Props/C04.v (gitignore_pattern_eq_git), this is the statement behind the
+      "documented syntax" oracle.  Alternates `{a,b}` are not covered by this theorem (tested only). *)
+Theorem parse_documented_syntax :
+  forall (o : gopts) (ps : list gpiece),
+    backslash_escape o = true -> glob_ok ps = true ->
+    build o (render_glob ps) = Some (Ok (glob_tokens ps)).
+Proof. exact build_render_proof. Qed.
+Print Assumptions parse_documented_syntax.
+
+Example ex_documented_syntax :
+  let g := [PDStar; PComp [IPlain 97; IStar; IClass [(98, 100); (46, 46)]%N]; PDStar; PComp [IEsc 42; IAny]; PDStar] in
+  glob_ok g = true /\
+  render_glob g = [42;42;47; 97;42;91;98;45;100;46;93; 47;42;42;47; 92;42;63; 47;42;42]%N /\
+  glob_tokens g = [TRecPrefix; TLit 97; TStar; TClass false [(98, 100); (46, 46)]%N; TRecZeroOrMore; TLit 42; TAny; TRecSuffix].
+Proof. vm_compute. auto. Qed.
 
 (* non-vacuity: `**/*.a` parses to [RecursivePrefix, ZeroOrMore, '.', 'a'], selects the Extension
    strategy and matches "b/x.a"; the set {*.a, b/x.a, a/**/b} reports [0;1] for "b/x.a" *)
@@ -78,3 +109,10 @@ Check set_eq_members :
            (seq 0 (length gs)).
 Check parse_total_never_panics :
   forall (o : gopts) (g : list N), exists r, build o g = Some r /\ r <> Err Panic.
+Check set_is_match_eq_exists :
+  forall (gs : list glob) (p : bytes),
+    set_is_match re_spec gs p = existsb (fun g => tmatch (g_opts g) (g_tokens g) p) gs.
+Check parse_documented_syntax :
+  forall (o : gopts) (ps : list gpiece),
+    backslash_escape o = true -> glob_ok ps = true ->
+    build o (render_glob ps) = Some (Ok (glob_tokens ps)).
